@@ -1871,3 +1871,41 @@ Proof.
   intros H. apply andb_true_iff in H. destruct H as [H1 H2]. split; [now apply wb_strat_b_sound|].
   destruct (snd (run_strat f t (i sd t))); [exact I|]. now apply IH.
 Qed.
+
+(* ================================================================================================================ *)
+(** * C13: abandoned creations (an exception escapes an initializer; or the life cycle refuses the manager's update) *)
+
+(* the first initializer's first update raises and is not caught: exactly the re-indexed table is left behind, both
+   flags stay set (they are not cleared in a `finally`), nothing is returned, nobody else is called *)
+Theorem create_first_raises st count user clock stp a k rest :
+  let f := mkflags ((match ptbl st with None => true | Some _ => false end) || creating (pflags st)) true in
+  let t1 := reindex (cur_table st) count in
+  snd (update t1 (a_view a) f (a_ord a) (a_upd a)) <> Pass -> a_propagate a = true ->
+  create st count user clock stp ((fun _ _ => IAct a k) :: rest) =
+  (mkpstate (Some t1) f, Rejected EOther, [mksimdata (new_labels (nrows st) count) user clock stp]).
+Proof.
+  intros f t1 NP PR. unfold create. fold f. fold t1. simpl.
+  destruct (update t1 (a_view a) f (a_ord a) (a_upd a)) as [t' o] eqn:UP. simpl in NP.
+  assert (E : t' = t1) by (eapply update_rejected_unchanged; eassumption). subst t'.
+  assert (IP : is_pass o = false) by (destruct o; try reflexivity; congruence).
+  rewrite IP, PR. simpl. reflexivity.
+Qed.
+
+(* whatever made the creation fail: the rows are there, the flags stay set, and (under the guards of
+   C13_existing_untouched) no existing cell changed its value *)
+Theorem create_abandoned st count user clock stp inits st' e log :
+  create st count user clock stp inits = (st', Rejected e, log) ->
+  nrows st' = (nrows st + count)%nat /\
+  pflags st' = mkflags ((match ptbl st with None => true | Some _ => false end) || creating (pflags st)) true /\
+  ptbl st' <> None.
+Proof.
+  intros C. pose proof (create_props _ _ _ _ _ _ _ _ _ C) as [R [_ [_ [_ [P _]]]]]. split; [exact R|]. split; [|exact P].
+  unfold create in C.
+  destruct (run_inits _ (reindex (cur_table st) count) _ inits) as [[t2 raised] lg]. destruct raised; inversion C. reflexivity.
+Qed.
+
+(* the refused creation of the correspondence is an instance *)
+Lemma refused_action_raises t f : snd (update t (a_view refused_action) f (a_ord refused_action) (a_upd refused_action)) <> Pass.
+Proof.
+  unfold refused_action, update, update_checked. simpl. destruct (creating f && negb (adding f)); simpl; discriminate.
+Qed.
